@@ -17,7 +17,7 @@ var DefaultConfig = Config{
 type Config struct {
 	// Bind is the address to bind the API server to.
 	// Using a localhost address is recommended to avoid exposing the API to the public.
-	Bind string `json:"bind,omitempty" yaml:"bind,omitempty"`
+	Bind string `json:"bind" yaml:"bind"`
 }
 
 // Validate validates the API configuration.
